@@ -106,6 +106,8 @@ type Stats struct {
 	LeakedTasks     uint64
 	Selects         uint64
 	TimersFired     uint64
+	TimersMade      uint64
+	Survivors       uint64
 	ForcedGCs       uint64
 	HotNaps         uint64
 	Fingerprint     uint64
